@@ -27,9 +27,63 @@ pub extern "C" fn foreign_marker() -> usize {
     std::ptr::from_ref::<u8>(&MARK) as usize
 }
 
-fn local_marker_fn() -> usize {
-    datafusion_ffi::get_library_marker_id as extern "C" fn() -> usize as usize
+/// The library's marker function exists in several copies (one per codegen unit that uses it), so
+/// "the" address is a set: the addresses seen in the structs the harness can name, plus any word that
+/// points into executable memory at code of the shape `lea rax, [rip + LIBRARY_MARKER]; ret`.
+static KNOWN: std::sync::Mutex<Vec<usize>> = std::sync::Mutex::new(Vec::new());
+static TEXT: std::sync::OnceLock<Vec<(usize, usize)>> = std::sync::OnceLock::new();
+
+fn text_ranges() -> &'static Vec<(usize, usize)> {
+    TEXT.get_or_init(|| {
+        let mut v = vec![];
+        if let Ok(maps) = std::fs::read_to_string("/proc/self/maps") {
+            for l in maps.lines() {
+                let mut it = l.split_whitespace();
+                let (Some(range), Some(perm)) = (it.next(), it.next()) else { continue };
+                if !perm.contains('x') || !perm.starts_with('r') {
+                    continue;
+                }
+                if let Some((a, b)) = range.split_once('-') {
+                    if let (Ok(a), Ok(b)) = (usize::from_str_radix(a, 16), usize::from_str_radix(b, 16)) {
+                        v.push((a, b));
+                    }
+                }
+            }
+        }
+        v
+    })
 }
+
+fn looks_like_marker_fn(w: usize) -> bool {
+    if !text_ranges().iter().any(|(a, b)| w >= *a && w + 24 <= *b) {
+        return false;
+    }
+    let code = unsafe { std::slice::from_raw_parts(w as *const u8, 24) };
+    let mut off = 0;
+    if code[..4] == [0xf3, 0x0f, 0x1e, 0xfa] {
+        off = 4; // endbr64
+    }
+    if code[off..off + 3] != [0x48, 0x8d, 0x05] || code[off + 7] != 0xc3 {
+        return false;
+    }
+    let disp = i32::from_le_bytes([code[off + 3], code[off + 4], code[off + 5], code[off + 6]]) as isize;
+    (w + off + 7).wrapping_add_signed(disp) == datafusion_ffi::get_library_marker_id()
+}
+
+fn is_local_marker_fn(w: usize) -> bool {
+    if w == 0 {
+        return false;
+    }
+    if KNOWN.lock().unwrap().contains(&w) {
+        return true;
+    }
+    if looks_like_marker_fn(w) {
+        KNOWN.lock().unwrap().push(w);
+        return true;
+    }
+    false
+}
+
 fn foreign_marker_fn() -> usize {
     foreign_marker as extern "C" fn() -> usize as usize
 }
@@ -44,10 +98,10 @@ unsafe fn patch_markers<T>(v: &mut T) {
     }
     let words = std::mem::size_of::<T>() / std::mem::size_of::<usize>();
     let p = v as *mut T as *mut usize;
-    let (local, foreign) = (local_marker_fn(), foreign_marker_fn());
+    let foreign = foreign_marker_fn();
     for i in 0..words {
         unsafe {
-            if p.add(i).read() == local {
+            if is_local_marker_fn(p.add(i).read()) {
                 p.add(i).write(foreign);
                 PATCHED.fetch_add(1, Ordering::Relaxed);
             }
@@ -138,12 +192,21 @@ pub fn force_plan(f: &mut FFI_ExecutionPlan) {
     f.library_marker_id = foreign_marker;
 }
 
-/// Sanity check of the assumption the generic hooks rest on.
+/// Collect the marker-function addresses of the structs the harness can name; check the basic assumption.
 pub fn self_check() -> Result<(), String> {
     let udf = datafusion::functions::math::abs();
     let ffi: datafusion_ffi::udf::FFI_ScalarUDF = udf.into();
-    if ffi.library_marker_id as usize != local_marker_fn() {
-        return Err("the address of datafusion_ffi::get_library_marker_id differs from the one stored in FFI structs".into());
+    let agg: FFI_AggregateUDF = datafusion::functions_aggregate::sum::sum_udaf().into();
+    let win: FFI_WindowUDF = datafusion::functions_window::row_number::row_number_udwf().into();
+    for f in [ffi.library_marker_id, agg.library_marker_id, win.library_marker_id] {
+        if f() != datafusion_ffi::get_library_marker_id() {
+            return Err("a marker function stored in an FFI struct does not return the library marker".into());
+        }
+        let w = f as usize;
+        let mut k = KNOWN.lock().unwrap();
+        if !k.contains(&w) {
+            k.push(w);
+        }
     }
     if foreign_marker() == datafusion_ffi::get_library_marker_id() {
         return Err("harness marker equals the library marker".into());
